@@ -228,3 +228,22 @@ def control_cases(tier, rng):
         for _ in range(per): add(t, ctl_settings(rng))
     tabs = fmt_tables(cases)
     return [(cid, fields + [tabs.get(cid, "") or "-"]) for cid, fields in cases]
+
+
+def any_cases(tier, rng):
+    """doc-wrap-any: texts with syntax errors (mutations, every short string over the lexer's character classes)"""
+    n = {"quick": 1500, "search": 3000, "thorough": 20000}[tier]
+    cases = []; seen = set()
+    def add(t, cfg):
+        if (t, cfg) in seen: return
+        seen.add((t, cfg)); cases.append((f"a{len(cases)}", [hexs(t), cfg]))
+    for t in EXOTIC: add(t, settings(rng))
+    for _ in range(n):
+        t = gen_grammar.render(struct_doc(rng)) if rng.random() < 0.7 else control_doc(rng)
+        for _ in range(rng.choice([1, 1, 2, 3, 5])): t = gen.mutate(rng, t)
+        for _ in range(3): add(t, settings(rng))
+    k = {"quick": 4, "search": 4, "thorough": 5}[tier]
+    small = ["s1:1:-:v:k:s:1", "f:0:10:n:n:i:1", "s2:1:79:c:k:n:1", "s2:0:-:v:n:n:0"]
+    for s in gen.exhaustive(gen.DEB822_ALPHABET, k):
+        add(s, small[len(cases) % 4])
+    return cases
